@@ -179,7 +179,7 @@ func (c Cell) columnOfTable() *column {
 	if c.columnNum > t.nColumns {
 		return nil
 	}
-	return &t.columns[c.columnNum]
+	return t.columns[c.columnNum]
 }
 
 // Empty returns true if the cell is "empty", whatever that might mean.
